@@ -401,8 +401,10 @@ async def scenario(loop, case, out, stats, fps, samples):
                     pass  # the next scheduling is already under way; its own chain is not judged here
                 elif fin.get("op") != "requeue":
                     out.append(V("wrong_final_place", kind, ctx, f"{id_} recurring, pattern {pat}: first scheduling ended with {fin.get('op')} instead of a reschedule"))
-                elif place not in ((["delayed"], ["waiting"]) if case.get("period", PERIOD) <= 2 else (["delayed"],)) and not any(e["k"] == "actor_start" and e["n"] > first_final_n for e in es):
-                    # (with a one-second period the successor may be due - and waiting - by the time the state is looked at)
+                elif place not in ((["delayed"], ["waiting"], ["held"]) if case.get("period", PERIOD) <= 2 else (["delayed"],)) and not any(e["k"] == "actor_start" and e["n"] > first_final_n for e in es):
+                    # (with a one-second period the successor may be due - and waiting, or already taken by the worker's
+                    # prefetching consumer when the stop request came - by the time the state is looked at; what becomes of a
+                    # message taken by a stopping worker is C01's and C03's subject, here it has been rescheduled once)
                     out.append(V("wrong_final_place", kind, ctx, f"{id_} recurring: after the reschedule the message is at {place}"))
                 elif st is not None and st[1] is not None and place == ["delayed"] and st[1]["tried"] != 0:
                     out.append(V("wrong_final_place", kind, ctx, f"{id_} recurring successor carries already_tried={st[1]['tried']}"))
